@@ -463,6 +463,16 @@ func VsymC19() {
 		vr.Assert(err == nil && string(blob) == string(p.blob) && bd.MediaType == p.media && bd.Size == int64(len(p.blob)), "fetching a pushed signature yields the identical envelope bytes and media type")
 		vr.Reach("round trip")
 	}
+	if hostile == 8 || hostile == 10 {
+		// fetched by its descriptor (not through a listing): an image manifest or a legacy artifact manifest above
+		// the manifest cap is refused before its content is fetched
+		resetFetched()
+		blob, _, err := repo.FetchSignatureBlob(ctx, hostileDesc)
+		vr.Assert(err != nil && blob == nil, "a signature manifest above the manifest cap - image manifest or legacy artifact manifest - is refused when fetched by descriptor")
+		for _, f := range fetched() {
+			vr.Assert(f != hostileDesc.Digest, "an oversized manifest is refused before its content is fetched")
+		}
+	}
 	if hostile != 0 && hostile != 8 && hostile != 10 {
 		resetFetched()
 		blob, _, err := repo.FetchSignatureBlob(ctx, hostileDesc)
